@@ -52,13 +52,14 @@ type Solver struct {
 	TimeoutMs  int
 	FallbackMs int
 	PreferInt  bool // try cvc5-int first
+	OneShot    bool // (reset) + full script per query: lets z3 use its non-incremental BV tactics
 	Trace      io.Writer
 	crossEvery int
 	nUnsatSeen int
 }
 
 func NewSolver(timeoutMs, fallbackMs int) (*Solver, error) {
-	s := &Solver{TimeoutMs: timeoutMs, FallbackMs: fallbackMs, crossEvery: 0}
+	s := &Solver{TimeoutMs: timeoutMs, FallbackMs: fallbackMs, crossEvery: 0, OneShot: os.Getenv("SYMGO_INCR") == ""}
 	if err := s.start(); err != nil {
 		return nil, err
 	}
@@ -66,7 +67,11 @@ func NewSolver(timeoutMs, fallbackMs int) (*Solver, error) {
 }
 
 func (s *Solver) start() error {
-	s.cmd = exec.Command("z3", "-in")
+	bin := os.Getenv("SYMGO_Z3")
+	if bin == "" {
+		bin = "z3-new"
+	}
+	s.cmd = exec.Command(bin, "-in")
 	in, err := s.cmd.StdinPipe()
 	if err != nil {
 		return err
@@ -105,7 +110,9 @@ func (s *Solver) raw(line string) {
 
 func (s *Solver) send(line string) {
 	s.script = append(s.script, line)
-	s.raw(line)
+	if !s.OneShot {
+		s.raw(line)
+	}
 }
 
 func (s *Solver) readLine() string {
@@ -149,11 +156,15 @@ func (s *Solver) BeginPath(pool *TermPool) {
 	s.script = s.script[:0]
 	s.declared = map[string]bool{}
 	s.declaredUF = map[string]bool{}
-	s.raw("(push 1)")
+	if !s.OneShot {
+		s.raw("(push 1)")
+	}
 }
 
 func (s *Solver) EndPath() {
-	s.raw("(pop 1)")
+	if !s.OneShot {
+		s.raw("(pop 1)")
+	}
 	s.pool = nil
 }
 
@@ -228,7 +239,19 @@ func (s *Solver) Check(extra *Term, wantModel bool) (SatResult, map[string]*big.
 	if extra != nil && !extra.IsTrue() {
 		ref = s.emit(extra)
 	}
-	s.raw("(push 1)")
+	if s.OneShot {
+		s.raw("(reset)")
+		s.raw(fmt.Sprintf("(set-option :timeout %d)", s.TimeoutMs))
+		s.raw("(set-option :produce-models true)")
+		var sb strings.Builder
+		for _, l := range s.script {
+			sb.WriteString(l)
+			sb.WriteByte('\n')
+		}
+		io.WriteString(s.in, sb.String())
+	} else {
+		s.raw("(push 1)")
+	}
 	if ref != "" {
 		s.raw("(assert " + ref + ")")
 	}
@@ -268,7 +291,9 @@ func (s *Solver) Check(extra *Term, wantModel bool) (SatResult, map[string]*big.
 			}
 		}
 	}
-	s.raw("(pop 1)")
+	if !s.OneShot {
+		s.raw("(pop 1)")
+	}
 	switch res {
 	case Sat:
 		s.Stats.Sat++
@@ -282,6 +307,17 @@ func (s *Solver) Check(extra *Term, wantModel bool) (SatResult, map[string]*big.
 		s.Stats.Unknown++
 	}
 	d := time.Since(t0).Seconds()
+	if dir := os.Getenv("SYMGO_SLOWQ"); dir != "" && d > 0.3 {
+		var buf bytes.Buffer
+		for _, l := range s.script {
+			buf.WriteString(l + "\n")
+		}
+		if ref != "" {
+			buf.WriteString("(assert " + ref + ")\n")
+		}
+		buf.WriteString("(check-sat)\n")
+		os.WriteFile(fmt.Sprintf("%s/q%d_%s_%.1fs.smt2", dir, s.Stats.Queries, res, d), buf.Bytes(), 0o644)
+	}
 	s.Stats.Seconds += d
 	if d > s.Stats.MaxQuerySec {
 		s.Stats.MaxQuerySec = d
